@@ -1148,7 +1148,17 @@ func TestLedger(t *testing.T) {
 			for i, pp := range peers {
 				held = append(held, fmt.Sprintf("p%d: allocator reports %d bytes, ledger reserved-released %d", i, w.led.real.AllocatedForPeer(pp), w.led.held(pp)))
 			}
-			rep.Violation(ci, "C15/reservation-waits-forever-on-idle-queue", fmt.Sprintf("a response transaction is waiting for memory although nothing is queued or in flight for the peer any more (%v): the bytes it waits for are accounted to the idle peer", held),
+			stuckSig := "C15/reservation-waits-forever-on-idle-queue"
+			// recorded finding: data reserved for a queue that had begun shutting down (connect / sender failure,
+			// last disconnect) is never sent, failed or released - here it is what the waiting transaction waits for
+			w.rig.mu.Lock()
+			for _, q := range w.queues {
+				if sd, ex := atomic.LoadInt64(&q.shutdown), atomic.LoadInt64(&q.exited); sd != 0 || ex != 0 {
+					stuckSig = "C15/build-into-dying-queue"
+				}
+			}
+			w.rig.mu.Unlock()
+			rep.Violation(ci, stuckSig, fmt.Sprintf("a response transaction is waiting for memory although nothing is queued or in flight for the peer any more (%v): the bytes it waits for are accounted to the idle peer", held),
 				map[string]any{"case": ci, "fault": fault, "fail_at_send": failAt, "retries": retries, "first_send_held": hold, "per_peer_allowance": perPeer, "event_log_tail": w.log.Tail(60)})
 			w.close()
 			<-prodDone
